@@ -91,7 +91,7 @@ Inv_C02_Layout ==
 BitsOnlyIllTyped ==
     \A i \in 1..Len(dd.prog[dd.root].fields) :
         LET f == dd.prog[dd.root].fields[i] IN
-        f.k = "Bits" \/ f.k \in {"Em", "Move"} \/ WellTyped(dd.prog, f, Lookup(V, f.name))
+        f.k = "Bits" \/ f.k \in {"Em", "Move", "Emb"} \/ WellTyped(dd.prog, f, Lookup(V, f.name))
 Inv_C07_Isolated ==
     (Terminal /\ Plain /\ BitsOnlyIllTyped /\ \A i \in 1..Len(V) : V[i].v.t = "int") =>
         (p.st = "done" /\ p.out = Layout(dd.prog, dd.root, V))
